@@ -743,6 +743,26 @@ func (e *Env) evalCall(c *CCall) TVal {
 		}
 		e.errorf("typeid expects a string literal")
 		return mathInt("0")
+	case "asptr", "ptrtypeid":
+		// asptr(v, "T"): the address v seen as a *T (T a named type of the function's package);
+		// ptrtypeid("T"): the dynamic-type id an interface holding a *T carries
+		si := len(c.Args) - 1
+		s, ok := c.Args[si].(*CStr)
+		if !ok || e.x.fn.Pkg == nil {
+			e.errorf("%s expects a type name string", c.Fn)
+			return mathInt("0")
+		}
+		obj := e.x.fn.Pkg.Pkg.Scope().Lookup(s.V)
+		tn, ok := obj.(*types.TypeName)
+		if !ok {
+			e.errorf("%s: no type %s in package %s", c.Fn, s.V, e.x.fn.Pkg.Pkg.Path())
+			return mathInt("0")
+		}
+		pt := types.NewPointer(tn.Type())
+		if c.Fn == "ptrtypeid" {
+			return mathInt(Lit(int64(e.x.eng.typeID(pt))))
+		}
+		return TVal{IntV(e.scalar(e.Eval(c.Args[0]), "asptr")), pt}
 	case "ghost":
 		// ghost(name): a cell of abstract state, changed only through contracts' modifies clauses
 		id, ok := c.Args[0].(*CIdent)
